@@ -178,7 +178,9 @@ func runCacheHistory(env *fw.Env, c CacheCase, withFaults bool, judgeMinimizeLat
 					out[j] = res{a, e}
 				}(j)
 			}
-			wg.Wait()
+			if !semkit.Watchdog(semkit.HangLimit(), wg.Wait) {
+				return fw.Failf("", "%s Check(%s) did not return within the hang limit\n%s\nstuck goroutines:\n%s", what, op.Req, semkit.Describe(cur), semkit.GoroutineDump("openfga/openfga/internal"))
+			}
 			if deadlined {
 				fd.slowNs.Store(0)
 			}
